@@ -16,7 +16,7 @@ CATS = ["default", "app", "app.net", "net.x", ""]
 
 # texts that differ only in case / whitespace / normalisation / emptiness
 TEXTS = [[], None, [97], [65], [97, 32], [32, 97], [97, 98], [98, 97], [0xE9], [0x65, 0x301], [97, 10], [10],
-         [97, 98, 97], [0x200B], [0xD83D, 0xDE42, 97]]
+         [97, 98, 97], [0x200B], [0xD83D, 0xDE42, 97], [97, 97], [120, 98, 98, 121], [97, 98, 97, 98]]
 
 
 def u(s):
@@ -60,7 +60,7 @@ class Gen:
         if kind == "dup":
             return {"kind": "dup"}
         if kind == "regex":
-            rx = r.choice(["contains", "prefix", "suffix", "emptyonly", "any", "alt", "icontains"])
+            rx = r.choice(["contains", "prefix", "suffix", "emptyonly", "any", "alt", "icontains", "backref", "group"])
             lits = [[97], [97, 98], [65], [32], [46], [40], [0xE9], [98]]
             lit = r.choice(lits)
             if rx == "icontains":
